@@ -282,6 +282,9 @@ def _dict(ex, args, kw):
         return VDict([])
     if args and isinstance(args[0], VDict):
         return VDict(list(args[0].entries) + [(VStr(k), v) for k, v in kw.items()])
+    if args and isinstance(args[0], VMap) and not kw:
+        m = args[0]
+        return VMap(m.k, m.v, m.present, list(m.arrs))
     if not args:
         return VDict([(VStr(k), v) for k, v in kw.items()])
     raise OutOfSubset("dict(...)")
@@ -685,12 +688,25 @@ def _call_method(ex, recv: V, name: str, args, kw):
                 return ex.force(unpack(recv.v, [z3.Select(a, k) for a in recv.arrs]))
             ex.setitem(recv, args[0], args[1])
             return args[1]
+        if name == "update" and len(args) == 1 and isinstance(args[0], VMap):
+            o = args[0]
+            kx = z3.Const("k!upd", key_sort(recv.k))
+            recv.arrs = [z3.Lambda([kx], z3.If(z3.Select(o.present, kx), z3.Select(b, kx), z3.Select(a, kx))) for a, b in zip(recv.arrs, o.arrs)]
+            recv.present = z3.Lambda([kx], z3.Or(z3.Select(recv.present, kx), z3.Select(o.present, kx)))
+            return NONE
+        if name == "update" and len(args) == 1 and isinstance(args[0], VDict):
+            for kk, vv in args[0].entries:
+                ex.setitem(recv, kk, vv)
+            return NONE
     if isinstance(recv, VStr):
         s = recv.term
         if name == "startswith" and isinstance(args[0], VStr):
             return VBool(z3.PrefixOf(args[0].term, s))
         if name == "endswith" and isinstance(args[0], VStr):
             return VBool(z3.SuffixOf(args[0].term, s))
+        if name in ("startswith", "endswith") and isinstance(args[0], (VTuple, VList)) and all(isinstance(x, VStr) for x in args[0].items):
+            f = z3.PrefixOf if name == "startswith" else z3.SuffixOf
+            return VBool(z3.Or([f(x.term, s) for x in args[0].items] + [z3.BoolVal(False)]))
         if name == "isdigit":
             # ASCII model: every character is 0-9 and the string is non-empty
             digit = z3.Range("0", "9")
@@ -700,9 +716,11 @@ def _call_method(ex, recv: V, name: str, args, kw):
             if z3.is_string_value(ss):
                 return VStr(getattr(ss.as_string(), name)())
             r = ex.fresh_const(f"str_{name}", z3.StringSort())
-            if name == "strip":
-                # result is a substring; empty iff only whitespace (not modelled further)
-                ex.assume(z3.Contains(s, r))
+            if name in ("strip", "lstrip", "rstrip"):
+                # a substring of s; equal to s when s has no leading/trailing whitespace
+                ws = [z3.StringVal(c) for c in (" ", "\t", "\n", "\r")]
+                clean = z3.And([z3.Not(z3.PrefixOf(c, s)) for c in ws] + [z3.Not(z3.SuffixOf(c, s)) for c in ws])
+                ex.assume(z3.And(z3.Contains(s, r), z3.Implies(clean, r == s), z3.Implies(z3.Length(s) == 0, z3.Length(r) == 0)))
             else:
                 ex.assume(z3.Length(r) == z3.Length(s))
             return VStr(r)
